@@ -79,6 +79,9 @@ pub use crate::internals::generate::{Generator, GeneratorError};
 pub use crate::internals::generate_easy::hash_buf;
 #[cfg(all(feature = "easy-functions", feature = "std"))]
 pub use crate::internals::generate_easy_std::{hash_file, hash_stream, GeneratorOrIOError};
+#[cfg(all(a4lg_ffuzzy_verif, feature = "easy-functions", feature = "std"))]
+#[doc(hidden)]
+pub use crate::internals::generate_easy_std::verif_hash_stream_with;
 pub use crate::internals::hash::block::{block_hash, block_size, BlockSizeRelation};
 pub use crate::internals::hash::parser_state::{
     ParseError, ParseErrorInfo, ParseErrorKind, ParseErrorOrigin,
